@@ -1407,7 +1407,7 @@ func runConcConfig(c *simkit.Choice, r *simkit.Rec) {
 	cache := gmtls.NewLRUClientSessionCache(2)
 	// own caches: every client keeps the ticket of its own connection, and offers it
 	// in a follow-up connection once everything concurrent is over
-	ownCache := c.Bool(1, 2, simkit.LScen)
+	ownCache := c.Bool(2, 3, simkit.LScen)
 	ccfgs := make([]*gmtls.Config, nconn)
 	// written and read by different tasks: atomics (the scheduler's baton is invisible to the race detector)
 	hsStart := make([]atomic.Int64, nconn)
@@ -1451,11 +1451,14 @@ func runConcConfig(c *simkit.Choice, r *simkit.Rec) {
 	// moment some task stands inside the ticket code (statement-instrumented builds)
 	nRot := 1 + c.Choose(3, simkit.LFault) // rotations in all: the list ends as [nRot, nRot-1]
 	preRot := c.Choose(nRot, simkit.LFault)
+	if c.Bool(1, 2, simkit.LFault) {
+		preRot = nRot - 1 // only the last rotation is concurrent: every handshake starts with a key of the final list
+	}
 	owedIdx := nRot - 2 // a handshake that began after this rotation had completed can only have sealed under a key of the final list
 	if owedIdx < 0 {
 		owedIdx = 0
 	}
-	targeted := c.Bool(1, 2, simkit.LFault)
+	targeted := c.Bool(2, 3, simkit.LFault)
 	// targeted: rotation k happens at the moment the hitTarget[k]-th statement of the
 	// ticket code (counted over all tasks since the previous rotation) is reached:
 	// the rotator is woken and boosted there, i.e. the whole SetSessionTicketKeys
@@ -1464,7 +1467,7 @@ func runConcConfig(c *simkit.Choice, r *simkit.Rec) {
 	targetFile := []string{"gmtls/ticket.go", "gmtls/common.go"}[c.Choose(2, simkit.LFault)]
 	var hitTarget [3]int64
 	for k := range hitTarget {
-		hitTarget[k] = int64(c.Range(1, 60, simkit.LFault))
+		hitTarget[k] = int64(c.Range(1, 50, simkit.LFault))
 		if targetFile == "gmtls/common.go" {
 			hitTarget[k] = int64(c.Range(1, 30, simkit.LFault))
 		}
